@@ -134,6 +134,10 @@ def unmarshalFrame (m : DMessage) (st : GState) (f : Frame) : Option GState :=
           if p.1.muxed && mv == (p.1.muxValue : Int) then unmarshalField p.1 f.data else p.2
     some ⟨v2⟩
 
+/-- `CopyFrom`: `f, _ := o.MarshalFrame(); _ = m.UnmarshalFrame(f)` (an error leaves the destination as it was) -/
+def copyFrom (m : DMessage) (dst src : GState) : GState :=
+  (unmarshalFrame m dst (frameOf m src)).getD dst
+
 def setAt (l : List Raw) (i : Nat) (v : Raw) : List Raw := l.set i v
 
 /-- representable raw range of a signal (C10's invariant) -/
